@@ -1,5 +1,6 @@
 import DaskModel.DriverLib
 import DaskModel.Model.Sched
+import DaskModel.Model.Callbacks
 open Dask
 open Dask.Sched
 
@@ -182,10 +183,56 @@ def hDenote : Handler := handler fun args =>
       | none => .sym "none")))
   | _ => none
 
+/-! ### callbacks (C05) -/
+open Dask.Callbacks in
+def decOp (e : SExp) : Option Op :=
+  match e with
+  | .list [.sym "enterObj", o, c] => do pure (.enterObj (← o.toNat?) (← c.toNat?))
+  | .list [.sym "exitObj", o] => do pure (.exitObj (← o.toNat?))
+  | .list (.sym "enterCm" :: cbs) => do pure (.enterCm (← cbs.mapM SExp.toNat?))
+  | .list [.sym "exitCm", h] => do pure (.exitCm (← h.toNat?))
+  | .list [.sym "register", c] => do pure (.register (← c.toNat?))
+  | .list [.sym "unregister", c] => do pure (.unregister (← c.toNat?))
+  | .list [.sym "get"] => some .get
+  | .list (.sym "getWith" :: cbs) => do pure (.getWith (← cbs.mapM SExp.toNat?))
+  | _ => none
+
+open Dask.Callbacks in
+partial def decProg (e : SExp) : Option Prog :=
+  match e with
+  | .list [.sym "skip"] => some .skip
+  | .list [.sym "seq", p, q] => do pure (.seq (← decProg p) (← decProg q))
+  | .list [.sym "withCm", cbs, b] => do pure (.withCm (← cbs.toNats?) (← decProg b))
+  | .list [.sym "withObj", c, b] => do pure (.withObj (← c.toNat?) (← decProg b))
+  | .list [.sym "register", c] => do pure (.register (← c.toNat?))
+  | .list [.sym "unregister", c] => do pure (.unregister (← c.toNat?))
+  | .list [.sym "get"] => some .get
+  | _ => none
+
+/-- `(cbrun op…)` ↦ one `(ok (active…) used|none)` / `(raised)` per executed operation -/
+def hCbRun : Handler := handler fun args => do
+  let ops ← args.mapM decOp
+  let rs := Dask.Callbacks.run ops {}
+  pure (.list (rs.map (fun r => match r with
+    | .ok (s, u) => .list [.sym "ok", SExp.ofNats (sortNat s.active),
+        match u with | some l => SExp.ofNats (sortNat l) | none => .sym "none"]
+    | .error _ => .list [.sym "raised"])))
+
+/-- `(cbexec prog)` ↦ `(ok (active…) ((used…)…))` | `(raised)` -/
+def hCbExec : Handler := handler fun args =>
+  match args with
+  | [p] => do
+    let p ← decProg p
+    match Dask.Callbacks.exec p {} with
+    | .ok (s, l) => pure (.list [.sym "ok", SExp.ofNats (sortNat s.active), .list (l.map (fun u => SExp.ofNats (sortNat u)))])
+    | .error _ => pure (.list [.sym "raised"])
+  | _ => none
+
 end SchedDrv
 
 def table : List (String × Handler) :=
   [("run", SchedDrv.hRun), ("start_state", SchedDrv.hStart), ("finish_task", SchedDrv.hFinish),
-   ("release_data", SchedDrv.hRelease), ("denote", SchedDrv.hDenote)]
+   ("release_data", SchedDrv.hRelease), ("denote", SchedDrv.hDenote),
+   ("cbrun", SchedDrv.hCbRun), ("cbexec", SchedDrv.hCbExec)]
 
 def main : IO Unit := runDriver table
